@@ -197,7 +197,7 @@ def run(chk):
             continue
         out = identity_outcome(t.stmt, t.node)
         if out:
-            k = t.text
+            k = t.ctext
             seen[k] = seen.get(k, 0) + 1
-            chk.ob("R06.4", "__eq__: `%s` (Y == 0 -> equal to INFINITY)" % t.text, False, loc="src/ecdsa/ellipticcurve.py:%d" % t.node.lineno, key="C19|R06.4|__eq__|%s|%d" % (t.text, seen[k]),
+            chk.ob("R06.4", "__eq__: `%s` (Y == 0 -> equal to INFINITY)" % t.text, False, loc="src/ecdsa/ellipticcurve.py:%d" % t.node.lineno, key="C19|R06.4|__eq__|%s|%d" % (t.ctext, seen[k]),
                    detail="PointJacobi.__eq__ answers True for `T == INFINITY` when T has y = 0 (a point of order 2), so equality does not hold exactly when the denoted points are equal")
